@@ -189,7 +189,7 @@ def a4(repo, res):
 
 
 def run(repo, res, tier):
-    res.rules = ["A1 position setter algebra", "A2 orientation setter algebra", "A3 recursion coverage / argument forwarding", "M1 in-place pose writes only on the updated object", "V1 pose validators return copies"]
+    res.rules = ["A1 position setter algebra", "A2 orientation setter algebra", "A3 recursion coverage / argument forwarding", "A4 position getter returns a fresh array", "M1 in-place pose writes only on the updated object", "V1 pose validators return copies"]
     frame_rules.c10_algebra(repo, res)
     a3(repo, res)
     a4(repo, res)
